@@ -96,3 +96,13 @@ Proof.
   exists f0, N, s'. exact H.
 Qed.
 Print Assumptions C01_generated_programs_accepted.
+
+(* ... and translation units that MIX file-scope object declarations (`T x;`, `T x = e;`) and function definitions, in any order and number *)
+Theorem C01_generated_units_accepted : forall (P: Type) rp (u: list FuncTrip.edecl), Forall (FuncTrip.ewf) u ->
+  forall items le eof file, RoundTrip.Spell P le (FuncTrip.unit_toks rp u) -> StreamLib.UpR P [[]] items le -> List.length items = List.length le ->
+  exists f0 N s', forall fu, (f0 <= fu)%nat -> ParserMain.parse_tokens P fu (ParserMain.init_pstate P items eof file) = ParserBase.Ok (N, s').
+Proof.
+  intros P rp u Hu items le eof file HS HU Hl. destruct (FuncTrip.parse_of_generated_unit P rp u Hu items le eof file HS HU Hl) as [f0 [N [s' [H _]]]].
+  exists f0, N, s'. exact H.
+Qed.
+Print Assumptions C01_generated_units_accepted.
